@@ -85,7 +85,9 @@ func saveReplay(dir, name string, c GCase, rep *CaseReport, extra map[string]any
 }
 
 func newScratchModule() (string, error) {
-	root, err := os.MkdirTemp("", "verif-sweep-")
+	// a percent sign in the directory name (a checkout under "my%20project"): every position in a diagnostic carries it,
+	// so a path that is used as a format string shows
+	root, err := os.MkdirTemp("", "verif%20sweep-")
 	if err != nil {
 		return "", err
 	}
